@@ -10,6 +10,7 @@ must hold exactly the old or exactly the new complete content.
 import os, shutil, errno as E
 from engine import sysx as X, build
 from engine.common import pmap, CLEAN_ENV
+from checks import cli_common as C
 
 META = {
     'level': 'fault_enumeration',
@@ -29,6 +30,8 @@ def initial_contents(LIB):
         'absent': None, 'empty': b'', 'one_foreign': foreign, 'three_foreign_nonl': b'/a/liba.so\n# comment\n/b/libb.so',
         'big_foreign': big, 'own_first': LIB + b'\n' + foreign, 'own_middle': foreign + LIB + b'\n/z/libz.so\n', 'own_last_nonl': foreign + LIB,
         'big_with_own': big + LIB + b'\n' + big,
+        # the own entry as a later token of a shared line / indented (the dynamic loader takes both)
+        'own_shares_line': foreign + b'/a/liba.so ' + LIB + b' /b/libb.so # c\n/z/libz.so\n', 'own_indented_pct': b'# 100%s %n\n \t' + LIB + b'\n' + foreign,
     }
 
 
@@ -43,7 +46,7 @@ def run(ck):
     LIB = LIBP.encode()
     contents = initial_contents(LIB)
     if ck.tier == 'quick':
-        contents = {k: contents[k] for k in ('absent', 'one_foreign', 'three_foreign_nonl', 'big_foreign', 'own_middle', 'own_last_nonl', 'big_with_own')}
+        contents = {k: contents[k] for k in ('absent', 'one_foreign', 'three_foreign_nonl', 'big_foreign', 'own_middle', 'own_last_nonl', 'big_with_own', 'own_shares_line', 'own_indented_pct')}
     # the same contents with the preload file being a symbolic link, having a second hard link, or having leftover siblings
     # (ld.so.preload.bak / .old / ~ / .tmp from earlier tools or runs) next to it
     for base in ('one_foreign', 'own_middle', 'big_with_own'):
@@ -163,6 +166,14 @@ def run(ck):
         if len(samples) < 5 and evals % 509 == 1:
             samples.append({'command': cmd, 'initial': c, 'deviation': label, 'file_is': 'old' if after == old else 'new' if after == new else 'other'})
     ck.assumptions += ['death at system-call boundaries / inside shortened writes; unsynced page loss on power failure not modelled']
+    # files whose size does not fit an int (sparse; the last line is another library's entry)
+    for label, hbad in C.huge_file_cases(ck, cli, LIB):
+        if False:
+            continue
+        evals += 1
+        outcomes.add(('huge', label, tuple(hbad)))
+        if hbad:
+            ck.violation('C20:%s:%s' % ('+'.join(hbad), label), {'case': label, 'failed': hbad})
     ck.coverage(evaluations=evals, distinct_nontrivial=len(outcomes), states=len(outcomes), transitions=evals, traces_validated_against_impl=evals,
                 rule='(initial content, command) x {kill before/after each syscall of the whole life, ENOSPC/EIO/EDQUOT on each write-type call, torn writes}; distinct = (content, command, deviation kind, file is old/new/other)',
                 syscalls_per_run={'%s/%s' % (c, cmd): r.get('ncalls') for (c, cmd, _), r in zip(base_jobs, bases)}, samples=samples or [{'note': 'none'}])
